@@ -184,16 +184,14 @@ def run(ctx):
     p = g.find_path(kill, lambda n: n in rets, edge_ok=is_flow, node_ok=lambda n: n.id not in fab)
     ctx.check('R4', 'RemoteWorker.terminate[server]: after a forced kill a (False, None) outcome is sent on the data socket', bool(kill) and p is None, 'RemoteWorker.terminate',
               'forced-kill-no-outcome', 'after force-killing the backend the server does not tell the parent: the frontend keeps waiting for a result', where=loc(term, term.node))
-    closes = [c for st in stmts for c in calls_in(st) if last_attr(c) == 'close' and receiver(c) == 'self._socket']
+    from ..sockets import _calls_following_helpers, check_child_death_eof, check_forced_kill_eof
+    closes = [c for c in _calls_following_helpers(ctx, RW, term, stmts) if last_attr(c) == 'close' and receiver(c) == 'self._socket']
     ctx.check('R4', 'RemoteWorker.terminate[server]: the data socket is closed after the fabricated outcome', bool(closes), 'RemoteWorker.terminate', 'forced-kill-socket-open',
               'the server keeps the data socket open after a forced kill', where=loc(term, term.node))
     cr = RW.methods['_ctrl_fn_remote']
     ctx.used(cr)
-    sent = [st for st in walk_local(cr.node) if isinstance(st, ast.If) and 'sentinel' in norm(st.test)]
-    ok = bool(sent) and any(last_attr(c) in ('close', 'shutdown') and receiver(c) == 'self._socket' for x in sent[0].body for c in calls_in(x))
-    ctx.check('R4', 'remote control thread closes the data socket when the child process dies', ok, 'RemoteWorker._ctrl_fn_remote', 'child-death-socket-open',
-              'when the backend dies without reporting (SIGKILL) nobody closes the server\'s copy of the data socket: the parent blocks forever waiting for the result',
-              where=loc(cr, cr.node))
+    check_child_death_eof(ctx, 'R4')
+    check_forced_kill_eof(ctx, 'R4')
     # _release_remote_ctrl: after the child is dead the control thread is told to stop
     # the statements guarded by `_release_remote_ctrl` being true, wherever in a (possibly nested / inverted) conditional the flag is tested
     pmt = parent_map(term.node)
